@@ -1014,6 +1014,11 @@ def np_vdot(interp, name, args, kw, st, node):
     """np.vdot(a, b) flattens both operands: for real arrays of one shape the sum of the elementwise products"""
     a, b = arrv(args[0]), arrv(args[1])
     sa_, sb_ = shape(a), shape(b)
+    if sa_ is not None and sb_ is not None and len(sa_) == len(sb_) and len(sa_) >= 2 and any(A.dims_conflict(interp, x, y) for x, y in zip(sa_, sb_)):
+        # two tables of different shapes (an (n, m) against an (m, n) one) flattened and paired entry by entry in
+        # memory order: entry (i, j) of one meets another entry of the other - a sum of mismatched products
+        interp.event("shape-conflict", node, st, what="vdot of two matrices of different shapes pairs their entries by flattened position", a=tuple(sa_), b=tuple(sb_))
+        return fresh_arr(callterm(name, args, kw), (), _L(*args))
     if sa_ is None or sb_ is None or len(sa_) != len(sb_) or any(A.dims_conflict(interp, x, y) for x, y in zip(sa_, sb_)):
         return fresh_arr(callterm(name, args, kw), (), _L(*args))
     prod = A.binop(interp, "mul", a, b, st, node)
